@@ -380,6 +380,125 @@ Lemma inverse_v2 (i : idx) (e : pev2) (x : ch2) :
   heqv2 (rspec_ev2 e (spec_ev2 i e x)) x /\ (g_st x <> R2 -> rspec_ev2 e (spec_ev2 i e x) = x).
 Proof. intros c v. split; [apply inverse2|apply inverse2_exact]; assumption. Qed.
 
+(* ... and for everything one block carries for one contract, processed and un-processed in the
+   order of ApplyContracts / RevertContracts *)
+Lemma inverse_block_v1 (h : N) (l : list pev1) (x : ch1) :
+  cinv1 x -> shape1 l -> valid_evs1 h l x ->
+  heqv1 (rspec_evs1 l (spec_evs1 h l x)) x /\ (h_st x <> Rejected -> rspec_evs1 l (spec_evs1 h l x) = x).
+Proof. intros c sh v. split; [apply inverse1_evs|apply inverse1_evs_exact]; assumption. Qed.
+Lemma inverse_block_v2 (i : idx) (l : list pev2) (x : ch2) :
+  cinv2 x -> shape2 l -> valid_evs2 i l x ->
+  heqv2 (rspec_evs2 l (spec_evs2 i l x)) x /\ (g_st x <> R2 -> rspec_evs2 l (spec_evs2 i l x) = x).
+Proof. intros c sh v. split; [apply inverse2_evs|apply inverse2_evs_exact]; assumption. Qed.
+
+(** * several changes of one contract in one block *)
+
+(* after connecting a valid block, a contract the block mentions carries exactly what its changes
+   make of the chain's columns (it is confirmed, so there is no rejection slack) *)
+Lemma connect_mentioned_v1 buffer s K b id c :
+  J buffer s K -> bvalid buffer (negof1 s) (negof2 s) K b ->
+  find1 id (cs1 s) = Some c -> evl1_of id b <> [] ->
+  exists s' c', hrun buffer [HBatch 0 [b]] (s, K) = ROk (s', b :: K) /\ J buffer s' (b :: K) /\
+    find1 id (cs1 s') = Some c' /\ neg1 c' = neg1 c /\
+    valid_evs1 (bheight b) (evl1_of id b) (spec1 buffer (neg1 c) id K) /\
+    heqv1 (proj1 c) (spec1 buffer (neg1 c) id K) /\ cinv1 (spec1 buffer (neg1 c) id K) /\
+    proj1 c' = spec_evs1 (bheight b) (evl1_of id b) (spec1 buffer (neg1 c) id K).
+Proof.
+  intros HJ Hb Ef Ev.
+  assert (W : wf_item buffer (s, K) (HBatch 0 [b])) by (cbn; split; [lia|split; [exact Hb|exact I]]).
+  destruct (batch_J buffer s K 0 [b] HJ W) as (s' & E & HJ' & N1 & N2). cbn [rev app skipn] in *.
+  destruct (row_facts1 _ _ _ _ _ HJ Ef) as (Hq & Hc & Hid & Hng).
+  assert (Hn' : negof1 s' id = Some (neg1 c)) by (rewrite N1; exact Hng).
+  apply negof1_some in Hn'. destruct Hn' as (c' & Ef' & Hneg).
+  destruct Hb as (_ & V1 & _). destruct (V1 id Ev) as (ng & Hn & Hv). assert (ng = neg1 c) as -> by congruence.
+  exists s', c'. split; [unfold hrun; cbn [foldM]; rewrite E; reflexivity|].
+  split; [exact HJ'|]. split; [exact Ef'|]. split; [exact Hneg|]. split; [exact Hv|]. split; [exact Hq|]. split; [exact Hc|].
+  destruct (row_facts1 _ _ _ _ _ HJ' Ef') as (Hq' & _ & _ & _). rewrite Hneg, spec1_cons in Hq'.
+  rewrite (spec_block1_some _ _ _ _ _ Ev Hc Hv) in Hq'.
+  apply (heqv1_formed_eq _ _ Hq'). apply formed_after_evs1; assumption.
+Qed.
+Lemma connect_mentioned_v2 buffer s K b id c :
+  J buffer s K -> bvalid buffer (negof1 s) (negof2 s) K b ->
+  find2 id (cs2 s) = Some c -> evl2_of id b <> [] ->
+  exists s' c', hrun buffer [HBatch 0 [b]] (s, K) = ROk (s', b :: K) /\ J buffer s' (b :: K) /\
+    find2 id (cs2 s') = Some c' /\ neg2 c' = neg2 c /\
+    valid_evs2 (bidx b) (evl2_of id b) (spec2 buffer (neg2 c) id K) /\
+    heqv2 (proj2 c) (spec2 buffer (neg2 c) id K) /\ cinv2 (spec2 buffer (neg2 c) id K) /\
+    proj2 c' = spec_evs2 (bidx b) (evl2_of id b) (spec2 buffer (neg2 c) id K).
+Proof.
+  intros HJ Hb Ef Ev.
+  assert (W : wf_item buffer (s, K) (HBatch 0 [b])) by (cbn; split; [lia|split; [exact Hb|exact I]]).
+  destruct (batch_J buffer s K 0 [b] HJ W) as (s' & E & HJ' & N1 & N2). cbn [rev app skipn] in *.
+  destruct (row_facts2 _ _ _ _ _ HJ Ef) as (Hq & Hc & Hid & Hng).
+  assert (Hn' : negof2 s' id = Some (neg2 c)) by (rewrite N2; exact Hng).
+  apply negof2_some in Hn'. destruct Hn' as (c' & Ef' & Hneg).
+  destruct Hb as (_ & _ & V2). destruct (V2 id Ev) as (ng & Hn & Hv). assert (ng = neg2 c) as -> by congruence.
+  exists s', c'. split; [unfold hrun; cbn [foldM]; rewrite E; reflexivity|].
+  split; [exact HJ'|]. split; [exact Ef'|]. split; [exact Hneg|]. split; [exact Hv|]. split; [exact Hq|]. split; [exact Hc|].
+  destruct (row_facts2 _ _ _ _ _ HJ' Ef') as (Hq' & _ & _ & _). rewrite Hneg, spec2_cons in Hq'.
+  rewrite (spec_block2_some _ _ _ _ _ Ev Hc Hv) in Hq'.
+  apply (heqv2_formed_eq _ _ Hq'). apply formed_after_evs2; assumption.
+Qed.
+
+Definition res_status (e : pev2) : st2 :=
+  match e with PSucc2 => S2 | PRen2 => N2 | PFail2 => F2 | _ => A2 end.
+
+(* a v2 contract revised AND resolved in one block: both are recorded — the contract is resolved
+   at that block and its confirmed revision is the revised one *)
+Lemma same_block_revision_and_resolution buffer s K b id c o n e :
+  J buffer s K -> bvalid buffer (negof1 s) (negof2 s) K b ->
+  find2 id (cs2 s) = Some c -> evl2_of id b = [PRev2 o n; e] -> is_res2 e = true ->
+  exists s' c', hrun buffer [HBatch 0 [b]] (s, K) = ROk (s', b :: K) /\ J buffer s' (b :: K) /\
+    find2 id (cs2 s') = Some c' /\
+    s2 c' = res_status e /\ res2 c' = Some (bidx b) /\ elem2 c' = Some n /\ conf2 c' = conf2 c.
+Proof.
+  intros HJ Hb Ef Ev He.
+  destruct (connect_mentioned_v2 buffer s K b id c HJ Hb Ef) as (s' & c' & E & HJ' & Ef' & _ & Hv & Hq & Hc & Hp).
+  { rewrite Ev; discriminate. }
+  exists s', c'. split; [exact E|]. split; [exact HJ'|]. split; [exact Ef'|].
+  rewrite Ev in Hv, Hp. revert Hv Hq Hc Hp. generalize (spec2 buffer (neg2 c) id K). intros x.
+  unfold heqv2, cinv2. change (conf2 c) with (g_conf (proj2 c)).
+  change (s2 c') with (g_st (proj2 c')). change (res2 c') with (g_res (proj2 c')). change (elem2 c') with (g_elem (proj2 c')).
+  change (conf2 c') with (g_conf (proj2 c')). generalize (proj2 c) (proj2 c'). intros y y' Hv Hq Hc ->.
+  destruct e; try discriminate; h2 x; h2 y; crush.
+Qed.
+
+(* a v1 formation whose element carries revision k (revisions confirmed in the block of the
+   formation): the contract is active and k is its confirmed revision *)
+Lemma formation_with_folded_revision buffer s K b id c k :
+  J buffer s K -> bvalid buffer (negof1 s) (negof2 s) K b ->
+  find1 id (cs1 s) = Some c -> evl1_of id b = [PForm1; PRev1 0 k] ->
+  exists s' c', hrun buffer [HBatch 0 [b]] (s, K) = ROk (s', b :: K) /\ J buffer s' (b :: K) /\
+    find1 id (cs1 s') = Some c' /\
+    s1 c' = Active /\ formed c' = true /\ confRev c' = k /\ resH c' = None.
+Proof.
+  intros HJ Hb Ef Ev.
+  destruct (connect_mentioned_v1 buffer s K b id c HJ Hb Ef) as (s' & c' & E & HJ' & Ef' & _ & Hv & Hq & Hc & Hp).
+  { rewrite Ev; discriminate. }
+  exists s', c'. split; [exact E|]. split; [exact HJ'|]. split; [exact Ef'|].
+  rewrite Ev in Hv, Hp. revert Hv Hq Hc Hp. generalize (spec1 buffer (neg1 c) id K). intros x.
+  unfold heqv1, cinv1.
+  change (s1 c') with (h_st (proj1 c')). change (formed c') with (h_formed (proj1 c')).
+  change (confRev c') with (h_conf (proj1 c')). change (resH c') with (h_res (proj1 c')).
+  generalize (proj1 c) (proj1 c'). intros y y' Hv Hq Hc ->.
+  h1 x; h1 y; crush.
+Qed.
+
+Lemma reachable_same_block_revision_and_resolution buffer s K b id c o n e :
+  reachable buffer s K -> bvalid buffer (negof1 s) (negof2 s) K b ->
+  find2 id (cs2 s) = Some c -> evl2_of id b = [PRev2 o n; e] -> is_res2 e = true ->
+  exists s' c', hrun buffer [HBatch 0 [b]] (s, K) = ROk (s', b :: K) /\ J buffer s' (b :: K) /\
+    find2 id (cs2 s') = Some c' /\
+    s2 c' = res_status e /\ res2 c' = Some (bidx b) /\ elem2 c' = Some n /\ conf2 c' = conf2 c.
+Proof. intros H. apply same_block_revision_and_resolution. apply reachable_is_J; exact H. Qed.
+Lemma reachable_formation_with_folded_revision buffer s K b id c k :
+  reachable buffer s K -> bvalid buffer (negof1 s) (negof2 s) K b ->
+  find1 id (cs1 s) = Some c -> evl1_of id b = [PForm1; PRev1 0 k] ->
+  exists s' c', hrun buffer [HBatch 0 [b]] (s, K) = ROk (s', b :: K) /\ J buffer s' (b :: K) /\
+    find1 id (cs1 s') = Some c' /\
+    s1 c' = Active /\ formed c' = true /\ confRev c' = k /\ resH c' = None.
+Proof. intros H. apply formation_with_folded_revision. apply reachable_is_J; exact H. Qed.
+
 (* a concrete well-formed history (non-vacuity) *)
 Definition demo : list item :=
   let b1 := mkB (1, 1) [] [] [] [] [] [] [] [] [] in
